@@ -124,6 +124,7 @@ class Engine:
             z3.ForAll([v], z3.Implies(is_ref(v), is_ref(kn(v))), patterns=[kn(v)]),
             z3.ForAll([v], z3.Implies(is_bool(v), kn(v) == vint(z3.If(b_of(v), 1, 0))), patterns=[kn(v)]),
             z3.ForAll([v], z3.Implies(is_real(v), kn(v) == v), patterns=[kn(v)]),   # A-FLOAT: 1.0 == 1 not modelled
+            z3.ForAll([v], z3.Implies(z3.Not(is_ref(v)), hashable(v)), patterns=[hashable(v)]),
         ]
         from .models import IT_N, IT_ARR
         jq = z3.Int("j!q")
